@@ -241,7 +241,9 @@ static void gen_inspect(htp_connp_t *c, hx_obs *o, void *ctx) {
     if (bad) {
         hb_term(&err);
         char *nl = strchr((char *) err.p, '\n'); if (nl) *nl = 0;
-        hx_verdict_add("C02", "fidelity", "%s: %d mismatch(es); first: %s", GE.name, bad, (char *) err.p);
+        int early = 0; for (int i = 0; i < GE.nmsg; i++) if (GE.truth[i].interim100 == 2) early = 1;
+        /* exchanges with an interim response other than 100 are a class of their own (input class, decided by the generator alone) */
+        hx_verdict_add("C02", early ? "fidelity_interim_1xx" : "fidelity", "%s: %d mismatch(es); first: %s", GE.name, bad, (char *) err.p);
         gen_mism++;
     }
 }
@@ -287,6 +289,7 @@ static void mode_gen(int argc, char **argv) {
     int thorough = !strcmp(hx_tier, "thorough");
     int D = atoi(hx_arg(argc, argv, "--dev", thorough ? "3" : "2"));
     gen_cuts = atoi(hx_arg(argc, argv, "--cuts", "1"));
+    gs_alts[GS_STATUS] = 7;        /* + an interim 103 before the final answer (the segmentation / steady-state workloads keep the 6 others: one defect, one place) */
     long total = gx_enum_deviations(D, gen_visit, NULL);
     hx_emit_stat("messages_total", hx_shard_i == 0 ? total : 0);
     /* pipelines: every sequence of length <= 3 over the representatives */
